@@ -158,7 +158,9 @@ class USBSignalInEndpoint(Elaboratable):
             with m.State("WAIT_FOR_ACK"):
 
                 # If the host does ACK, we're done! Move back to our idle state.
-                with m.If(self.interface.handshakes_in.ack):
+                # (Handshake detection is shared by the whole device, and sees handshakes meant for other
+                # devices; so only count an ACK that follows an IN token directed at us.)
+                with m.If(self.interface.handshakes_in.ack & targeting_endpoint):
                     m.d.comb += self.status_read_complete.eq(1)
                     m.d.usb += self.interface.tx_pid_toggle[0].eq(~self.interface.tx_pid_toggle[0])
                     m.next = "IDLE"
